@@ -5,7 +5,9 @@ PID = "C08"
 
 def run():
     t = core.tier() == "thorough"
-    return macfam.run(PID, [f"hist={40 if t else 4}", f"steps={70 if t else 45}", "profile=cmds"],
+    return macfam.run(PID, [[f"hist={40 if t else 4}", f"steps={70 if t else 45}", "profile=cmds"],
+                            # the window walk of C10: it carries the define / map / redefine sequences on one channel
+                            ["hist=1", "profile=rxwin", f"stride={1 if t else 3}"]],
         'MAC command answer and effect disagree (or order/multiplicity/stickiness wrong)',
         'seeded random histories where nearly every uplink is answered by an authentic Class A downlink carrying a MAC-command stream (LinkADRReq blocks of 1..n with DR/TXPower/ChMaskCntl/mask drawn from boundary+random values, RXParamSetupReq, RXTimingSetupReq, NewChannelReq, DlChannelReq, DevStatusReq, ignored and malformed commands) in FOpts or port 0; answers in the next uplinks and the snapshot after every downlink are compared',
         macfam.COMMON_ASSUMPTIONS,
